@@ -21,7 +21,76 @@ def main(n, seed):
     fs = LocalFileSystem()
     md5 = lambda b: hashlib.md5(b).hexdigest()  # noqa: E731,S324
     fails, distinct = [], set()
+    def add_dir(o, files):
+        lst = []
+        for rel, d in sorted(files.items()):
+            o.add_bytes(md5(d), d); lst.append({"md5": md5(d), "relpath": rel})
+        raw = json.dumps(lst, sort_keys=True).encode(); oid = md5(raw) + ".dir"; o.add_bytes(oid, raw)
+        return oid
+
+    def special(kind, case):
+        """layouts the random generator does not produce"""
+        with tempfile.TemporaryDirectory(dir="/var/tmp") as tmp:
+            def odb(name, indexed=False):
+                p = os.path.join(tmp, name); os.makedirs(p)
+                return HashFileDB(fs, p, tmp_dir=os.path.join(tmp, "tmp-" + name)) if indexed else HashFileDB(fs, p)
+            if kind == "shared-content-indexed":
+                # remote indexes in use (tmp_dir), two remotes behind one cache, the same bytes inside a directory bound for R0 and
+                # as a loose file bound for R1: each remote has to end up with its own copy
+                cache, r0, r1 = odb("cache", True), odb("R0", True), odb("R1", True)
+                shared = f"shared-{case}".encode()
+                doid = add_dir(cache, {"x": shared, "y": f"y-{case}".encode()})
+                cache.add_bytes(md5(shared), shared)
+                idx = DataIndex({("a", "d"): DataIndexEntry(key=("a", "d"), meta=Meta(isdir=True), hash_info=HashInfo("md5", doid)),
+                                 ("b", "f"): DataIndexEntry(key=("b", "f"), meta=Meta(), hash_info=HashInfo("md5", md5(shared)))})
+                for pfx, rem in ((("a",), r0), (("b",), r1)):
+                    idx.storage_map.add_cache(ObjectStorage(pfx, cache)); idx.storage_map.add_remote(ObjectStorage(pfx, rem))
+                push(collect([idx], "remote", push=True))
+                if md5(shared) not in set(r1.all()):
+                    return "with remote indexes, the object shared between a directory on R0 and a loose file on R1 never reached R1"
+            elif kind == "nested-prefix-first":
+                # a remote registered at a prefix INSIDE a directory that the index holds only as an unloaded directory object,
+                # registered before the root mapping
+                cache, r0, r1 = odb("cache"), odb("R0"), odb("R1")
+                files = {"sub/p": f"p-{case}".encode(), "sub/q": f"q-{case}".encode(), "top": f"t-{case}".encode()}
+                doid = add_dir(cache, files)
+                idx = DataIndex({("data",): DataIndexEntry(key=("data",), meta=Meta(isdir=True), hash_info=HashInfo("md5", doid))})
+                idx.storage_map.add_remote(ObjectStorage(("data", "sub"), r1))  # the nested prefix is visited first
+                idx.storage_map.add_cache(ObjectStorage((), cache))
+                idx.storage_map.add_remote(ObjectStorage((), r0))
+                push(collect([idx], "remote", push=True))
+                want = {md5(files["sub/p"]), md5(files["sub/q"])}
+                if not want <= set(r1.all()):
+                    return "the remote designated for data/sub received nothing although the objects below it are reachable"
+            else:
+                # a partial local cache: the directory object is cached, one listed file is in neither cache nor remote: the
+                # directory must be withheld and reported, never uploaded without the file
+                cache, r0 = odb("cache"), odb("R0")
+                files = {"x": f"x-{case}".encode(), "gone": f"gone-{case}".encode()}
+                doid = add_dir(cache, files)
+                gp = cache.oid_to_path(md5(files["gone"])); os.chmod(gp, 0o644); os.unlink(gp)
+                idx = DataIndex({("d",): DataIndexEntry(key=("d",), meta=Meta(isdir=True), hash_info=HashInfo("md5", doid))})
+                idx.storage_map.add_cache(ObjectStorage((), cache)); idx.storage_map.add_remote(ObjectStorage((), r0))
+                pushed, failed = push(collect([idx], "remote", push=True))
+                have = set(r0.all())
+                if doid in have and md5(files["gone"]) not in have:
+                    return "the remote holds the directory object without a file it lists (file missing from the cache)"
+                if failed == 0:
+                    return "a directory that could not be delivered completely was not reported as failed"
+        return None
+
+    KINDS = ["shared-content-indexed", "nested-prefix-first", "partial-cache"]
     for case in range(n):
+        if case % 5 == 4:
+            kind = KINDS[(case // 5) % 3]
+            try:
+                pr = special(kind, case)
+            except Exception as e:  # noqa: BLE001
+                pr = "raised " + repr(e)
+            distinct.add((kind, case))
+            if pr:
+                fails.append({"prefix->remote": kind, "entries": {}, "problems": [pr]})
+            continue
         with tempfile.TemporaryDirectory(dir="/var/tmp") as tmp:
             def odb(name):
                 p = os.path.join(tmp, name); os.makedirs(p); return HashFileDB(fs, p)
@@ -76,7 +145,7 @@ def main(n, seed):
             if problems:
                 fails.append({"prefix->remote": assign, "entries": {"/".join(k): v for k, v in spec.items()}, "problems": problems})
     return {"evaluations": n, "distinct_nontrivial": len(distinct), "failures": fails[:2], "n_failures": len(fails),
-            "bound": "<= 4 disjoint top-level prefixes, <= 3 remotes, <= 3 entries per prefix, directory objects with <= 3 files"}
+            "bound": "<= 4 disjoint top-level prefixes, <= 3 remotes, <= 3 entries per prefix, directory objects with <= 3 files; every fifth: remote indexes with shared content / a storage prefix inside an unloaded directory / a partial cache"}
 
 
 if __name__ == "__main__":
